@@ -16,6 +16,8 @@ CONSTANTS
   V6Key = "d6"
   V4Key = "d4"
   NegRule = "rfc2308"
+  FailTTL = 5
+  FailRule = "terminal"
   Routes = {"msg", "msgw", "wire"}
   Reqs = {1, 2}
   MaxLeases = 2
@@ -28,6 +30,6 @@ CONSTANTS
   MaxPubOps = 0
   PubInits <- PubA
   Res = {1}
-INIT InitAnswer
+INIT Init64
 NEXT NextSim64
 CHECK_DEADLOCK FALSE
